@@ -112,11 +112,12 @@ theorem tables_one_to_one :
 
 /-! ## Constants and comparison operators -/
 
-/-- C07 / C19: default interval 5 s, slow_down adds 5 s (an addition to the current interval), default
-cap of the error back-off 10 s. -/
+/-- C07 / C19: default interval 5 s, slow_down adds 5 s to the current interval (`+` on the pinned tree,
+`saturating_add` once the overflow repair of DESIGN §6 F2 is in), default cap of the error back-off 10 s. -/
 theorem consts_device_poll :
     defaultDevicecodeInterval = 5 ∧
-    slowDownIncrementSecs = 5 ∧ slowDownOp = "+" ∧ slowDownLhs = "current_interval" ∧
+    slowDownIncrementSecs = 5 ∧ (slowDownOp = "+" ∨ slowDownOp = "saturating_add") ∧
+    slowDownLhs = "current_interval" ∧
     defaultMaxBackoffSecs = 10 := by
   refine ⟨?_, ?_, ?_, ?_, ?_⟩ <;> decide
 
